@@ -334,8 +334,8 @@ PROBES = {
   "probe_edge_stiffness": ("passive:edge-stiffness-ignored", {"qfrc_spring"}),
   "probe_rope_geom_on_vertex_body": ("flex_geom_vertex:own-body-geom", {"contact_count"}),
   "probe_contact_cloth_big_sphere": ("flex_contact:coincident-contacts-merged", {"contact_duplicates_merged"}),
-  "probe_contact_rope_sphere": ("flex_contact:1d-vertex-only", {"contact_count", "contact_dist", "contact_pos", "contact_duplicates_merged"}),
-  "probe_rope_vertex_on_sphere": ("flex_contact:1d-vertex-only", {"contact_count", "contact_dist", "contact_pos", "contact_duplicates_merged"}),
+  "probe_contact_rope_sphere": ("flex_contact:1d-vertex-only", {"contact_count", "contact_dist", "contact_pos", "contact_duplicates_merged", "contact_kind"}),
+  "probe_rope_vertex_on_sphere": ("flex_contact:1d-vertex-only", {"contact_count", "contact_dist", "contact_pos", "contact_duplicates_merged", "contact_kind"}),
 }
 # families of 1D flexes against geoms: a contact that MJWarp and MuJoCo both report (same dist and pos) but with
 # opposite normals is one root cause whatever the family
@@ -570,10 +570,14 @@ def compare(mjm, mjd, m, d, w=0):
   # contact normal = first row of the contact frame
   xw = np.concatenate([xw, d.contact.frame.numpy()[:na][sel][:, 0, :].astype(np.float64).reshape(-1, 3)], axis=1)
   xc = np.concatenate([xc, np.asarray(mjd.contact.frame, dtype=np.float64).reshape(-1, 9)[:, :3]], axis=1)
+  # kind of the flex side: 1 = a flex VERTEX, 0 = a flex ELEMENT (or none): an element contact spreads its Jacobian
+  # over the element's vertices, so equal geometry with different kinds still gives different rows
+  xw = np.concatenate([xw, (np.max(d.contact.vert.numpy()[:na][sel].reshape(-1, 2), axis=1, initial=-1) >= 0).astype(np.float64).reshape(-1, 1)], axis=1)
+  xc = np.concatenate([xc, (np.max(np.asarray(mjd.contact.vert).reshape(-1, 2), axis=1, initial=-1) >= 0).astype(np.float64).reshape(-1, 1)], axis=1)
 
   def canon(dd, xx):
     if len(dd) == 0:
-      return np.zeros((0, 7))
+      return np.zeros((0, 8))
     a = np.concatenate([dd[:, None], xx], axis=1)
     return a[np.lexsort((a[:, 3].round(3), a[:, 2].round(3), a[:, 1].round(3), a[:, 0].round(4)))]
 
@@ -582,7 +586,7 @@ def compare(mjm, mjd, m, d, w=0):
     for r_ in a:
       if not any(abs(r_[0] - q[0]) < 1e-4 and np.linalg.norm(r_[1:4] - q[1:4]) < 1e-3 for q in keep):
         keep.append(r_)
-    return np.array(keep).reshape(-1, 7)
+    return np.array(keep).reshape(-1, 8)
 
   cw, cc = canon(dw, xw), canon(dc, xc)
   if len(cw) == len(cc):
@@ -590,13 +594,15 @@ def compare(mjm, mjd, m, d, w=0):
       chk("contact_dist", cw[:, 0], cc[:, 0], 1e-4)
       chk("contact_pos", cw[:, 1:4], cc[:, 1:4], 2e-3)
       if not any(g in ("contact_dist", "contact_pos") for g, _ in out):  # same pairing: normals comparable
-        chk("contact_normal", cw[:, 4:], cc[:, 4:], 1e-3)
+        chk("contact_normal", cw[:, 4:7], cc[:, 4:7], 1e-3)
+        if not np.array_equal(cw[:, 7], cc[:, 7]):
+          out.append(("contact_kind", f"same contact geometry, but {int(cc[:, 7].sum())} of MuJoCo's contacts are flex-vertex contacts (the others element contacts) vs {int(cw[:, 7].sum())} of MJWarp's"))
   else:
     mc = merged(cc)
     same = len(mc) == len(cw) and (len(cw) == 0 or (np.max(np.abs(mc[:, 0] - cw[:, 0])) < 2e-4 and np.max(np.abs(mc[:, 1:4] - cw[:, 1:4])) < 2e-3))
     if same:
       out.append(("contact_duplicates_merged", f"{len(cw)} contacts vs MuJoCo {len(cc)}; equal after merging MuJoCo's coincident contacts"))
-      chk("contact_normal", cw[:, 4:], mc[:, 4:], 1e-3)
+      chk("contact_normal", cw[:, 4:7], mc[:, 4:7], 1e-3)
     else:
       out.append(("contact_count", f"{len(cw)} contacts vs MuJoCo {len(cc)} ({len(mc)} after merging coincident ones)"))
   # qacc: downstream summary (ill-conditioned with stiff elasticity: the repo's own multiflex test uses atol 5e-2)
